@@ -42,8 +42,9 @@ PROPS = {
         "level": "other",
         "functions": [G + "TreeGitStore._import_one", G + "TreeGitStore.delete_one", G + "BareGitStore._import_one",
                       G + "BareGitStore.delete_one"],
-        "explanation": "Effect-order obligations (objects before ref move, index last, lock held) on xandikos' own write "
-                       "functions; atomicity of each primitive is assumed; no crash point is visited.",
+        "explanation": "Deductive part: effect-order obligations (objects before ref move, index last, lock held, vdir temp-file then "
+                       "rename) on xandikos' own write functions, with atomicity of each primitive assumed - no crash point is visited "
+                       "by the proof. Crash points themselves are enumerated by the bounded fault-injection explorer on every run.",
     },
     "C06": {
         "level": "proof",
@@ -321,7 +322,12 @@ _ALWAYS = {
     "C01": [("request histories (store)", STORE_EXPLORE, _STORE_BOUND, {}), ("request histories (HTTP)", HTTP, _HTTP_ALL, {})],
     "C02": [("etag views (store)", STORE_EXPLORE, _STORE_BOUND, {}), ("etag views (HTTP)", HTTP, _HTTP_ALL, {})],
     "C03": [("conditional requests (store)", STORE_EXPLORE, _STORE_BOUND, {}), ("conditional requests (HTTP)", HTTP, _HTTP_ALL, {})],
-    "C04": [("write primitives (store)", STORE_EXPLORE, _STORE_BOUND, {})],
+    "C04": [("write primitives (store)", STORE_EXPLORE, _STORE_BOUND, {}),
+            ("crash points (fault enumeration)", "crash_explore.py",
+             "every crash point - before/after each rename, replace, unlink, mkdir, open-for-write, close of a written file, and the middle of "
+             "every file write - of replace and create on tree-git and vdir and replace on bare-git (quick; thorough: replace, create, delete, "
+             "set-displayname on all three), child process killed with os._exit, state inspected by a fresh process: collection lists, "
+             "interrupted resource old or new and hashing to its etag, other resources intact, no reference to a missing object", {})],
     "C06": [("uid uniqueness (store)", STORE_EXPLORE, _STORE_BOUND, {})],
     "C07": [("change lists (store)", STORE_EXPLORE, _STORE_BOUND, {"backends": ["tree-git", "bare-git"]})],
     "C08": [("ctag (store)", STORE_EXPLORE, _STORE_BOUND, {"backends": ["tree-git", "bare-git"]}), ("tags over HTTP", HTTP, _HTTP_ALL, {})],
